@@ -303,7 +303,11 @@ def gen_lifecycle(rng, i):
     ncomp = rng.choice([1, 2])
     ops = two_agents(rng, 0, opts, rng.choice([(1, 0), (0, 1), (1, 1)]), (("10.0.0.1",), ("10.0.1.1",)), ncomp)
     ops.append("net,%s,%s,1,%d,3" % (rng.choice([0, 0, 0.2]), rng.choice([0, 0.1]), rng.choice([1, 50])))
-    ops += ["gather,0,1", "gather,1,1", "run,20"] + signalling(rng, ncomp) + ["run,%d" % rng.choice([200, 2000, 6000])]
+    ops += ["gather,0,1", "gather,1,1", "run,20"]
+    if rng.random() < 0.2:
+        # a forced selection that cannot succeed, on a component that is not connected yet: nothing may be announced
+        ops += ["setalien,%d,1,%d,%d" % (rng.randrange(2), rng.randrange(1, ncomp + 1), rng.randrange(2)), "state,0,1,1", "state,1,1,1", "run,%d" % rng.choice([0, 30])]
+    ops += signalling(rng, ncomp) + ["run,%d" % rng.choice([200, 2000, 6000])]
     nxt = [2, 2]             # next stream id each agent will hand out
     for _ in range(rng.randrange(2, 12)):
         r = rng.random(); a = rng.randrange(2)
@@ -325,8 +329,11 @@ def gen_lifecycle(rng, i):
         elif r < 0.30:
             # a further stream, added and gathered while the earlier ones have long finished gathering
             ops += ["stream,%d,%d" % (a, rng.choice([1, 2])), "run,%d" % rng.choice([0, 20]), "gather,%d,%d" % (a, nxt[a]), "run,%d" % rng.choice([0, 20, 300])]; nxt[a] += 1
-        elif r < 0.35:
+        elif r < 0.33:
             ops.append("set_selected,%d,1,%d" % (a, rng.randrange(1, ncomp + 1)))
+        elif r < 0.35:
+            # a forced selection that cannot succeed (no local candidate of that family / transport): must not announce anything
+            ops.append("setalien,%d,1,%d,%d" % (a, rng.randrange(1, ncomp + 1), rng.randrange(2)))
         elif r < 0.45:
             ops.append("consent_lost,%d,1,%d" % (a, rng.randrange(1, ncomp + 1)))
         elif r < 0.6:
@@ -693,6 +700,9 @@ def gen_restart(rng, i):
     ips = (tuple("10.0.0.%d" % (k + 1) for k in range(na)), tuple("10.0.1.%d" % (k + 1) for k in range(nb)))
     ops = two_agents(rng, 0, opts, ctl, ips, ncomp)
     ops.append("net,%s,%s,%d,%d,%d" % (rng.choice([0, 0, 0.1, 0.3]), rng.choice([0, 0.1]), rng.choice([1, 5, 20]), rng.choice([1, 30, 120]), rng.choice([2, 3])))
+    if rng.random() < 0.3:
+        # a STUN server that never answers keeps every gathering run open for about 2 s: restarts then hit streams that are still gathering
+        ops += ["server,10.9.0.1,3478,silent", "stun,0,10.9.0.1,3478", "stun,1,10.9.0.1,3478"]
     ops += ["getcreds,0,1", "getcreds,1,1", "gather,0,1", "gather,1,1"]
     nrest = rng.randrange(1, 6)
     for r in range(nrest):
@@ -966,7 +976,8 @@ def gen_api_program(rng, i):
         elif r < 0.55: ops.append("send,%d,%d,%d,%d,%d" % (a, sid(), cid(), rng.choice([1, 100, 1472, 20000]), rng.randrange(200)))
         elif r < 0.59: ops.append(rng.choice(["detach,%d,%d,%d", "attach,%d,%d,%d"]) % (a, sid(), cid()))
         elif r < 0.63: ops.append("set_selected,%d,%d,%d" % (a, sid(), cid()))
-        elif r < 0.66: ops.append("setremote,%d,%d,%d" % (a, sid(), cid()))
+        elif r < 0.65: ops.append("setremote,%d,%d,%d" % (a, sid(), cid()))
+        elif r < 0.66: ops.append("setalien,%d,%d,%d,%d" % (a, sid(), cid(), rng.randrange(2)))
         elif r < 0.70: ops.append("consent_lost,%d,%d,%d" % (a, sid(), cid()))
         elif r < 0.73: ops.append("forget,%d,%d,%d" % (a, sid(), cid()))
         elif r < 0.76: ops.append(rng.choice(["getcreds,%d,%d" % (a, sid()), "localcands,%d,%d,%d" % (a, sid(), cid()), "remotecands,%d,%d,%d" % (a, sid(), cid()),
@@ -1057,7 +1068,10 @@ def gen_data(rng, i):
     sizes = [1, 2, 19, 20, 21, 100, 576, 1200, 1280, 1472, 1500, 4096, 9000, 63487, 63488, 63489, 65507, 65535]
     for _ in range(rng.randrange(3, 25)):
         a = rng.randrange(2); c = rng.randrange(1, ncomp + 1)
-        if reliable:
+        if reliable and rng.random() < 0.25:
+            # several messages in one call: each fits the pseudo-TCP send buffer, the batch may not
+            ops.append("sendbatch,%d,1,%d,%s,%d" % (a, c, ".".join(str(rng.choice([1, 100, 1200, 20000, 40000, 50000, 65535, rng.randrange(1, 65536)])) for _ in range(rng.randrange(2, 6))), rng.randrange(200)))
+        elif reliable:
             ops.append("sendstream,%d,1,%d,%d,%d" % (a, c, rng.choice(sizes + [rng.randrange(1, 200000)]), rng.randrange(250)))
         else:
             n = rng.choice(sizes + [rng.randrange(1, 65536)])
@@ -1121,6 +1135,12 @@ def oracle_data_full(evs, meta):
                         return "nice_agent_send accepted %d bytes of a %d-byte buffer" % (r, n)
                     if r > 0:
                         stream += bytes(((seed * 131 + k * 13 + (k >> 7)) & 0xff) for k in range(r))
+                if e.kind == "api" and e.f[0] == a and e.f[1] == "sendbatch" and e.f[3] == str(c):
+                    lens, seed, r = [int(x) for x in e.f[4].split(".")], int(e.f[5]), int(e.f[-1][1:])
+                    if r > len(lens):
+                        return "nice_agent_send_messages_nonblocking reported %d of %d messages sent" % (r, len(lens))
+                    for j in range(max(r, 0)):       # the messages reported as sent are in the stream, whole
+                        stream += bytes((((seed + j) * 131 + k * 13 + (k >> 7)) & 0xff) for k in range(lens[j]))
             if len(stream) != txn:
                 return "internal: stream reconstruction mismatch"
             if rxn > txn:
